@@ -111,8 +111,8 @@ impl Property for C14 {
     fn components_real(&self) -> Vec<&'static str> { vec!["streaming::wal::WalEntry::{from_delta,encode,decode,to_delta}", "streaming::segment::{SegmentWriter,SegmentReader::{open,validate,deltas}}", "streaming::checkpoint::{CheckpointWriter::write, CheckpointReader::{open,validate,load}}", "replication::gossip::GossipMessage::{serialize,deserialize}", "serde/bincode impls of ReplicatedValue, CrdtValue, SDS, lattices"] }
     fn components_stubbed(&self) -> Vec<&'static str> { vec!["no store/transport: the encoded image is damaged in memory, standing for at-rest corruption and torn reads (C10/C12 run the same readers behind the simulated disk and object store)"] }
     fn assumptions(&self) -> Vec<&'static str> { vec!["gossip JSON carries no checksum: for it only the round trip and 'no panic' are claimed (the property's damage clause names segment, checkpoint and WAL payload)", "a damaged image may decode to content identical to the original (unused or redundant bytes)"] }
-    fn required_probes(&self) -> Vec<&'static str> { vec!["roundtrip_all_types", "damage_detected", "damage_harmless_identical", "large_batch"] }
-    fn runs(&self, tier: Tier) -> u64 { match tier { Tier::Quick => 2500, Tier::Thorough => 40_000 } }
+    fn required_probes(&self) -> Vec<&'static str> { vec!["roundtrip_all_types", "damage_detected", "damage_harmless_identical", "large_batch", "damaged_segment_met_by_the_compactor"] }
+    fn runs(&self, tier: Tier) -> u64 { match tier { Tier::Quick => 1600, Tier::Thorough => 40_000 } }
 
     fn run(&self, src: &mut Src, ctx: &RunCtx) -> RunReport {
         let mut rep = RunReport::default();
@@ -258,6 +258,47 @@ impl Property for C14 {
             }
         }
         rep.evals = rep.evals.max(1);
+        // ---- a damaged segment at rest met by the tree's *other* reader of segments: the compactor reads its inputs
+        // itself and writes what it decoded into a new segment with a fresh, valid checksum; whatever it does with a
+        // damaged input, recovery afterwards must fail or return only what was written
+        if rep.violations.is_empty() && src.chance(1, 4) {
+            use crate::simkit::store::SimStore;
+            use redis_sim::streaming::{CompactionConfig, Compactor, ManifestManager, RecoveryManager, StreamingPersistence, WriteBufferConfig};
+            use std::sync::Arc;
+            let positions: Vec<u64> = (0..24).map(|_| src.below(1 << 20)).collect();
+            let bits: Vec<u8> = (0..24).map(|_| src.below(8) as u8).collect();
+            let seed2 = src.u64_any();
+            let found: Option<String> = crate::simkit::rt::block_on(seed2, async move {
+                let clock = crate::simkit::clock::SimClock::new(1_700_000_000_000);
+                let base = SimStore::new(); base.set_record(false);
+                let wcfg = WriteBufferConfig { flush_interval: std::time::Duration::from_millis(50), max_size_bytes: 1 << 20, max_deltas: 1000, backpressure_threshold_bytes: 1 << 22, compression_enabled: false };
+                let mut p = match StreamingPersistence::with_clock(Arc::new(base.clone()), "data".to_string(), 1, wcfg, clock.clone()).await { Ok(p) => p, Err(_) => return None };
+                let mut written: std::collections::BTreeSet<(String, String)> = Default::default();
+                let rid = ReplicaId::new(1);
+                for seg in 0..2u64 { for i in 0..3u64 { let (k, v) = (format!("cz{}-{}", seg, i), format!("payload-of-{}-{}", seg, i)); written.insert((k.clone(), v.clone())); let _ = p.push(ReplicationDelta::new(k, ReplicatedValue::with_value(SDS::from_str(&v), LamportClock { time: 10 + seg * 3 + i, replica_id: rid }), rid)); } if p.flush().await.is_err() { return None; } }
+                let objs = base.inner.lock().unwrap().objs.clone();
+                let Some((seg_key, seg_bytes)) = objs.iter().find(|(k, _)| k.contains("/segments/")).map(|(k, v)| (k.clone(), v.clone())) else { return None };
+                for (pos, bit) in positions.iter().zip(bits.iter()) {
+                    let st = SimStore::from_objects(&objs); st.set_record(false);
+                    let mut dmg = seg_bytes.clone(); let at = (*pos as usize) % dmg.len(); dmg[at] ^= 1 << bit;
+                    st.inner.lock().unwrap().objs.insert(seg_key.clone(), dmg);
+                    let ccfg = CompactionConfig { target_segment_size: 1 << 20, max_segments: 1, min_segments_to_compact: 2, max_segments_per_compaction: 10, tombstone_ttl: std::time::Duration::from_secs(3600), compression_enabled: false };
+                    let mut c = Compactor::with_time_source(Arc::new(st.clone()), "data".to_string(), ManifestManager::new(st.clone(), "data"), ccfg, clock.clone());
+                    let _ = c.compact().await;
+                    if let Ok(rec) = RecoveryManager::new(st.clone(), "data", 1).recover().await {
+                        for d in &rec.deltas {
+                            let got = (d.key.clone(), d.value.get().map(|s| String::from_utf8_lossy(s.as_bytes()).into_owned()).unwrap_or_default());
+                            if !written.contains(&got) { return Some(format!("segment {} with bit {} of byte {} flipped at rest, then Compactor::compact(), then RecoveryManager::recover(): recovery succeeds and returns {:?} = {:?}, which was never written (written: {:?})", seg_key, bit, at, got.0, got.1, written)); }
+                        }
+                    }
+                }
+                None
+            });
+            rep.probe("damaged_segment_met_by_the_compactor");
+            rep.evals += 24;
+            for _ in 0..24 { rep.fault("image_bit_flipped"); }
+            if let Some(m) = found { rep.violate("C14/damage-decoded-as-different-data/segment-through-compaction", m); }
+        }
         rep.nontrivial = !rep.sub_fps.is_empty();
         rep.fingerprint = fnv(0, want.join("\n").as_bytes());
         rep.sample = Some(json!({"updates": n, "types": kinds, "image_bytes": images.iter().map(|(e, b, _)| format!("{}:{}", enc_name(*e), b.len())).collect::<Vec<_>>(), "first_keys": items.iter().take(4).map(|(k, v, _)| format!("{:?} {}", k, v.crdt_type())).collect::<Vec<_>>() }));
